@@ -3,6 +3,7 @@
 package fasthttp
 
 import (
+	"crypto/tls"
 	"errors"
 	"fmt"
 	"io"
@@ -36,6 +37,16 @@ import (
 // while the caller is runnable) shifts the timer by exactly that amount. That is scheduling slack, not lateness, so
 // the harness measures it (hook at every scheduling step; "armed" is visible in-package as the moment the request
 // body has been swapped into the work item) and adds it to the caller's deadline.
+//
+// Configuration dimension (connection set-up faults that make calls fail EARLY, followed by further calls): the client
+// is also run with IsTLS over every combination of {TLSConfig nil / InsecureSkipVerify / explicit ServerName} x
+// {Addr from which a server name can / cannot be derived}; the connection handed out by Dial then carries a Handshake
+// method, which dialAddr takes as "already TLS", so the TLS-configuration path (built once per connection client, cached,
+// consulted by every call and by the worker) runs without a real handshake. Whether a configuration can be built is
+// decided by the harness's own reference c38tlsUnbuildable; in an unbuildable configuration every call fails before a
+// connection exists and the histories are sequences of such failing calls (same thread and concurrent threads, Do
+// included) each of which must still come back. Dial outcomes additionally include a timeout-class error, which makes
+// the worker sleep for its 1 s reconnection throttle while calls with shorter deadlines are queued.
 
 const (
 	c38Deadline = iota // DoDeadline
@@ -54,11 +65,43 @@ type c38cfg struct {
 	maxPending int
 	calls      [][]c38call // per caller thread: its calls, in order
 	beh        map[string]c04beh
-	dial       []int         // outcome of the i-th dial (last entry repeats): 0 connected, 1 refused
+	dial       []int         // outcome of the i-th dial (last entry repeats): 0 connected, 1 refused, 2 timeout-class error (the worker throttles its next attempt by 1 s)
 	dialEnv    bool          // every dial: environment choice connected / refused
 	dialTime   time.Duration // virtual duration of a dial attempt
 	settle     time.Duration // after all deadline calls returned: let this much time pass before sampling the wire
+	addr       string        // PipelineClient.Addr ("" = "h:80")
+	isTLS      bool          // PipelineClient.IsTLS; Dial then returns a connection with a Handshake method (taken as TLS already)
+	tlsCfg     *tls.Config   // PipelineClient.TLSConfig (only read and cloned by the client)
+	waitAll    bool          // threads with a Do call are awaited too (only for configurations in which Do returns without a server)
+	logTime    time.Duration // >0: Logger.Printf takes that much virtual time (see c38slowLogger)
 }
+
+// c38tlsUnbuildable is the harness's reference for "no TLS client configuration exists for this PipelineClient
+// configuration": TLS is on, certificate verification is on, no server name is configured and none can be derived from
+// Addr (Addr contains a colon but is not host:port). Written against the documented contract of Addr/TLSConfig, with
+// net.SplitHostPort as the host:port authority.
+func c38tlsUnbuildable(cfg c38cfg) bool {
+	if !cfg.isTLS {
+		return false
+	}
+	if cfg.tlsCfg != nil && (cfg.tlsCfg.ServerName != "" || cfg.tlsCfg.InsecureSkipVerify) {
+		return false
+	}
+	addr := cfg.addr
+	if addr == "" {
+		addr = "h:80"
+	}
+	if !strings.Contains(addr, ":") {
+		return false
+	}
+	_, _, err := net.SplitHostPort(addr)
+	return err != nil
+}
+
+// c38tlsConn: what a TLS-capable custom Dial returns; dialAddr uses a connection with a Handshake method as it is.
+type c38tlsConn struct{ *c04vConn }
+
+func (c38tlsConn) Handshake() error { return nil }
 
 type c38res struct {
 	c            c38call
@@ -87,6 +130,18 @@ type c38nopLogger struct{}
 
 func (c38nopLogger) Printf(string, ...any) {}
 
+// c38slowLogger: a Logger whose Printf takes virtual time. The connection worker retries a failed connection set-up at once
+// (only timeout-class errors are throttled); when the set-up fails without any blocking step (no TLS configuration) the
+// retry loop is a spin whose only call into the environment is Logger.Printf. Under the controlled scheduler a spinning
+// thread is never descheduled at cost 0, so the logger is where time passes; the loop then is a timed poll and the
+// callers' behaviour next to it is explorable.
+type c38slowLogger struct{ d time.Duration }
+
+func (l c38slowLogger) Printf(string, ...any) {
+	mcrt.Covered("worker-set-up-error-logged")
+	mtime.Sleep(l.d)
+}
+
 func c38body(cfg c38cfg) func() {
 	return func() {
 		o := &c38obs{}
@@ -111,9 +166,25 @@ func c38body(cfg c38cfg) func() {
 				mcrt.Covered("dial-refused")
 				return nil, errC38Refused
 			}
+			if mode == 2 {
+				mcrt.Covered("dial-timeout-error")
+				return nil, c04vTimeout{}
+			}
+			if cfg.isTLS {
+				mcrt.Covered("dial-tls-conn")
+				return c38tlsConn{o.vs.dial()}, nil
+			}
 			return o.vs.dial(), nil
 		}
-		pl := &PipelineClient{Addr: "h:80", Dial: dial, MaxConns: 1, MaxPendingRequests: cfg.maxPending, Logger: c38nopLogger{}}
+		addr := cfg.addr
+		if addr == "" {
+			addr = "h:80"
+		}
+		pl := &PipelineClient{Addr: addr, Dial: dial, MaxConns: 1, MaxPendingRequests: cfg.maxPending, Logger: c38nopLogger{},
+			IsTLS: cfg.isTLS, TLSConfig: cfg.tlsCfg}
+		if cfg.logTime > 0 {
+			pl.Logger = c38slowLogger{cfg.logTime}
+		}
 		perCaller := make([][]*c38res, len(cfg.calls))
 		for i, cs := range cfg.calls {
 			for _, c := range cs {
@@ -140,7 +211,7 @@ func c38body(cfg c38cfg) func() {
 			rs := perCaller[i]
 			daemon := false // a thread that makes a Do call (no deadline) may legitimately never return
 			for _, r := range rs {
-				daemon = daemon || r.c.kind == c38Do
+				daemon = daemon || (r.c.kind == c38Do && !cfg.waitAll)
 			}
 			if !daemon {
 				wg.Add(1)
@@ -213,6 +284,20 @@ func c38errClass(err error) string {
 	return "other"
 }
 
+// c38errClassIn: as c38errClass, and in a configuration for which no TLS configuration exists (by the harness's reference)
+// the client's "cannot determine tls server name" error (wrapping the address error) is the connection(-set-up) error of
+// that configuration. In every other configuration such an error stays "other" (a violation).
+func c38errClassIn(cfg c38cfg, err error) string {
+	ec := c38errClass(err)
+	if ec == "other" && c38tlsUnbuildable(cfg) {
+		var ae *net.AddrError
+		if errors.As(err, &ae) && strings.Contains(err.Error(), "tls server name") {
+			return "cfgerr"
+		}
+	}
+	return ec
+}
+
 func c38check(cfg c38cfg) func(x *mcrt.Exec) (string, string, string) {
 	return func(x *mcrt.Exec) (string, string, string) {
 		o, _ := x.UserData.(*c38obs)
@@ -224,7 +309,7 @@ func c38check(cfg c38cfg) func(x *mcrt.Exec) (string, string, string) {
 			if !r.returned {
 				cls = append(cls, r.c.id+"=pending")
 			} else {
-				cls = append(cls, r.c.id+"="+c38errClass(r.err))
+				cls = append(cls, r.c.id+"="+c38errClassIn(cfg, r.err))
 			}
 		}
 		class := strings.Join(cls, ",")
@@ -239,6 +324,7 @@ func c38check(cfg c38cfg) func(x *mcrt.Exec) (string, string, string) {
 				return class, "", "" // cannot happen with whole-request flushes; let a generic verdict (if any) through
 			}
 		}
+		var notStarted *c38res
 		for _, r := range o.res {
 			if r.c.kind == c38Do {
 				if r.returned && r.err == ErrPipelineOverflow && onWire[r.c.id] {
@@ -246,13 +332,25 @@ func c38check(cfg c38cfg) func(x *mcrt.Exec) (string, string, string) {
 				}
 				continue
 			}
+			if !r.returned && !r.calling && (x.Out.Deadlock || x.Out.Horizon) {
+				// not started: an earlier call of its thread is stuck; judge the calls that are inside the client first
+				if notStarted == nil {
+					notStarted = r
+				}
+				continue
+			}
 			if !r.returned {
 				if x.Out.Deadlock || x.Out.Horizon {
+					if r.calling && r.req.body == r.origBody {
+						// stuck before the request was handed to the work item, i.e. at a point where no timer of the call can release it
+						return class, "pipeline-deadline-call-stuck-before-timer-armed", fmt.Sprintf("call %s (deadline %v) entered the client and never got as far as queueing its request: %s; earlier results: %s",
+							r.c.id, r.deadline, strings.Join(x.Out.Blocked, "; "), class)
+					}
 					return class, "pipeline-deadline-call-never-returns", fmt.Sprintf("call %s (deadline %v) never returned: %s", r.c.id, r.deadline, strings.Join(x.Out.Blocked, "; "))
 				}
 				return class, "", ""
 			}
-			ec := c38errClass(r.err)
+			ec := c38errClassIn(cfg, r.err)
 			if ec == "other" {
 				return class, "pipeline-deadline-call-unexpected-error", fmt.Sprintf("call %s returned %v", r.c.id, r.err)
 			}
@@ -267,8 +365,8 @@ func c38check(cfg c38cfg) func(x *mcrt.Exec) (string, string, string) {
 				return class, "pipeline-overflowed-request-on-wire", fmt.Sprintf("call %s failed with ErrPipelineOverflow but the server received its request; wire: %v", r.c.id, o.vs.seen)
 			}
 		}
-		if x.Out.Deadlock || x.Out.Horizon {
-			return class, "", ""
+		if notStarted != nil {
+			return class, "pipeline-deadline-call-never-started/earlier-call-of-thread-stuck", fmt.Sprintf("call %s was never started because an earlier call of its thread never returned: %s", notStarted.c.id, strings.Join(x.Out.Blocked, "; "))
 		}
 		return class, "", ""
 	}
@@ -283,11 +381,22 @@ func c38wrap(cfg c38cfg) func() {
 		if o == nil {
 			return
 		}
+		early := false
+		for _, r := range o.res {
+			if r.returned && early {
+				mcrt.Covered("call-after-early-failed-call")
+			}
+			if r.returned && r.err != nil && r.blockedUntil <= r.t0 {
+				early = true
+			}
+		}
 		for _, r := range o.res {
 			if !r.returned {
 				continue
 			}
-			switch c38errClass(r.err) {
+			switch c38errClassIn(cfg, r.err) {
+			case "cfgerr":
+				mcrt.Covered("tls-config-unbuildable-error")
 			case "ok":
 				mcrt.Covered("own-response")
 			case "timeout":
@@ -308,11 +417,18 @@ func TestVerif_C38(t *testing.T) {
 	r := vrt.Begin(t, "C38", "model_checking")
 	defer r.End()
 	r.Rule("closed systems: real PipelineClient (MaxConns 1, MaxPendingRequests 1-2) with its worker/writer/reader threads, 2-3 caller threads using DoDeadline/DoTimeout (+ a Do caller to provoke overflow) on the virtual clock, " +
-		"server model behind Dial: answers / answers slowly / never answers / closes mid-response / dial refused or slow (scenario parameters and Env choices); all schedules, select choices and timer-first orders up to the deviation bound; " +
-		"oracle per execution: every deadline call returns, with its own response (X-Id and body), ErrTimeout, ErrPipelineOverflow or a connection error, and the latest instant at which it was found blocked is <= its deadline (+ measured pre-arming slack); " +
+		"server model behind Dial: answers / answers slowly / never answers / closes mid-response / dial refused or slow / first dial refused or failing with a timeout-class error (1 s reconnection throttle) and a later one connecting (scenario parameters and Env choices); " +
+		"configuration dimension: IsTLS with TLSConfig {nil, InsecureSkipVerify, ServerName} x Addr {host:port, host, bare IPv6, two colons} (12 configurations; Dial hands out a connection with a Handshake method, so no real handshake runs): " +
+		"configurations for which a TLS configuration exists (harness reference c38tlsUnbuildable) run timeout-then-further-calls and refused-then-connects histories on the cached configuration, " +
+		"the ones without run histories of early-failing calls (3 sequential calls of one thread; 2 threads x 2 calls, staggered and simultaneous; a Do call followed by deadline calls) next to the worker's retry loop (Logger.Printf takes 10 ms of virtual time); " +
+		"all schedules, select choices and timer-first orders up to the deviation bound; " +
+		"oracle per execution: every deadline call returns (a call stuck before its request was queued, i.e. where no timer can release it, and a call that cannot start because an earlier call of its thread is stuck are classes of their own), with its own response (X-Id and body), ErrTimeout, ErrPipelineOverflow or a connection error (in a configuration without TLS configuration: the client's server-name error wrapping the address error; that error anywhere else is a violation), and the latest instant at which it was found blocked is <= its deadline (+ measured pre-arming slack); " +
 		"no request of a call that failed with ErrPipelineOverflow was received by the server; non-trivial: executions with >=1 deviation")
 	r.Assume("mcrt shim semantics (litmus-tested)", "sync.Pool modelled as deterministic LIFO", "harness net.Conn whose peer is a serial server model on the virtual clock (writes never block)",
-		"'by its deadline plus scheduling slack' = mcrt.BlockedUntil() <= deadline, plus virtual time that elapsed while the caller was runnable between entering the call and arming its timer")
+		"'by its deadline plus scheduling slack' = mcrt.BlockedUntil() <= deadline, plus virtual time that elapsed while the caller was runnable between entering the call and arming its timer",
+		"a connection with a Handshake method is used by dialAddr as it is (TLS handshakes themselves are outside this check)",
+		"'connection error' includes the error of a connection that cannot be configured (no TLS server name derivable), decided by the harness's own reference with net.SplitHostPort as authority",
+		"in configurations without TLS configuration the worker's immediate-retry loop only yields inside Logger.Printf (modelled as 10 ms of virtual time); with a Logger that returns at once the loop is a spin (reported as an observation, not judged by this property)")
 	var scs []mcx.Scenario
 	add := func(name string, qb, tb int, cfg c38cfg) {
 		if f := os.Getenv("VERIF_SCENARIO"); f != "" && !strings.Contains(name, f) {
@@ -367,5 +483,63 @@ func TestVerif_C38(t *testing.T) {
 	// wire), D waits in the write queue and is evicted by the Do caller E
 	add("mp1/overflow-saturated", 0, 1, c38cfg{maxPending: 1, settle: 3 * sec,
 		calls: mk(false, cl("A", D, 2*sec), cl("B", D, 2*sec), cl("C", D, 2*sec), cl("D", D, 2*sec), cl("E", c38Do, 0)), beh: map[string]c04beh{"A": {never: true}}})
+	// connection set-up faults that are not "refused": the first dial fails (refused / timeout-class error, after which the worker
+	// throttles its next attempt by 1 s), a later one connects; the first call of a thread fails, its next call follows at once
+	for _, mp := range []int{1, 2} {
+		p := fmt.Sprintf("mp%d/", mp)
+		add(p+"dial-refused-then-connects", 1, 2, c38cfg{maxPending: mp, dial: []int{1, 0}, dialTime: 400 * ms,
+			calls: [][]c38call{{cl("A", D, 300*ms), cl("B", T, sec)}, {{id: "C", kind: T, timeout: sec, after: ms}}}, beh: map[string]c04beh{"A": {}, "B": {}, "C": {}}})
+		add(p+"dial-timeout-throttle", 1, 2, c38cfg{maxPending: mp, dial: []int{2, 0}, dialTime: 100 * ms,
+			calls: [][]c38call{{cl("A", D, 500*ms), cl("B", T, 2*sec)}, {{id: "C", kind: D, timeout: sec, after: ms}}}, beh: map[string]c04beh{"A": {}, "B": {}, "C": {}}})
+	}
+	// configuration dimension: IsTLS x TLSConfig x Addr (see the file comment). c38tlsUnbuildable (the harness's reference) splits
+	// the product: without a buildable configuration no server is ever reached and the histories are runs of early-failing calls;
+	// with one, the calls go through the cached configuration to the server model.
+	tlsCfgs := []struct {
+		name string
+		c    *tls.Config
+	}{{"nocfg", nil}, {"skipverify", &tls.Config{InsecureSkipVerify: true}}, {"servername", &tls.Config{ServerName: "h"}}}
+	addrs := []struct{ name, addr string }{{"hostport", "h:443"}, {"noport", "h"}, {"bare-ipv6", "::1"}, {"two-colons", "h:1:2"}}
+	for _, tc := range tlsCfgs {
+		for _, ad := range addrs {
+			p := "tls/" + tc.name + "/" + ad.name + "/"
+			base := c38cfg{maxPending: 1, isTLS: true, tlsCfg: tc.c, addr: ad.addr, logTime: 10 * ms}
+			with := func(f func(c *c38cfg)) c38cfg { c := base; f(&c); return c }
+			if c38tlsUnbuildable(base) {
+				r.Add("tls_configurations_unbuildable", 1)
+				// nothing can be answered: Dial refuses, should it ever be reached
+				add(p+"seq", 2, 3, with(func(c *c38cfg) {
+					c.dial = []int{1}
+					c.calls = [][]c38call{{cl("A", D, sec), cl("B", T, sec), cl("C", D, sec)}}
+				}))
+				add(p+"two-threads", 2, 3, with(func(c *c38cfg) {
+					c.dial = []int{1}
+					c.calls = [][]c38call{{cl("A", T, sec), cl("B", D, sec)}, {{id: "C", kind: T, timeout: sec, after: ms}, cl("D", D, sec)}}
+				}))
+				add(p+"two-threads/sim", 2, 3, with(func(c *c38cfg) {
+					c.dial = []int{1}
+					c.calls = [][]c38call{{cl("A", D, sec), cl("B", T, sec)}, {cl("C", T, sec), cl("D", D, sec)}}
+				}))
+				add(p+"do-first", 2, 3, with(func(c *c38cfg) {
+					c.dial, c.waitAll = []int{1}, true
+					c.calls = [][]c38call{{cl("X", c38Do, 0), cl("A", D, sec)}, {{id: "B", kind: T, timeout: sec, after: ms}}}
+				}))
+				continue
+			}
+			r.Add("tls_configurations_buildable", 1)
+			// first call of a thread is never answered (times out), its second call and a second thread follow on the cached configuration
+			add(p+"timeout-then-more", 1, 2, with(func(c *c38cfg) {
+				c.calls = [][]c38call{{cl("A", D, sec), cl("B", T, sec)}, {{id: "C", kind: D, timeout: 3 * sec, after: ms}}}
+				c.beh = map[string]c04beh{"A": {never: true}, "B": {}, "C": {}}
+			}))
+			add(p+"refused-then-connects", 0, 1, with(func(c *c38cfg) {
+				c.dial, c.dialTime = []int{1, 0}, 400*ms
+				c.calls = [][]c38call{{cl("A", D, 300*ms), cl("B", T, sec)}, {{id: "C", kind: T, timeout: sec, after: ms}}}
+				c.beh = map[string]c04beh{"A": {}, "B": {}, "C": {}}
+			}))
+		}
+	}
+	add("tls/nocfg/hostport/answer-races-deadline", 1, 2, c38cfg{maxPending: 1, isTLS: true, addr: "h:443", calls: mk(false, cl("A", D, sec), cl("B", T, sec)), beh: map[string]c04beh{"A": {stall: sec}, "B": {}}})
+	add("tls/nocfg/hostport/answer/sim", 0, 1, c38cfg{maxPending: 2, isTLS: true, addr: "h:443", calls: mk(true, cl("A", D, sec), cl("B", T, sec)), beh: map[string]c04beh{"A": {}, "B": {}}})
 	mcx.Run(r, scs)
 }
